@@ -103,7 +103,9 @@ case_get(uint64_t idx, void *arg) {
     vx_fail("harness:get:reference-listing", "coap_print_wellknown_lkd failed for the reference listing");
     goto out;
   }
-  size_t gl = 0;
+  size_t gl = 0, etag_len = 0;
+  int etag_have = 0;
+  uint8_t etag_val[8];
   int cur_szx = szx;
   unsigned num = 0;
   for (int round = 0; round < 600; round++) {
@@ -154,6 +156,20 @@ case_get(uint64_t idx, void *arg) {
         memcpy(got + gl, m.payload, m.payload_len);
       gl += m.payload_len;
       break;
+    }
+    /* all blocks of one transfer describe one representation: the ETag (RFC 7959 2.4) of the first block is the ETag of
+     * every block - a client that re-assembles (libcoap's does) gives up on a transfer whose blocks disagree */
+    {
+      const struct w_opt *et = w_find(&m, 4);
+      if (round == 0) {
+        etag_len = et ? et->len : 0;
+        etag_have = et != NULL;
+        if (et && et->len <= sizeof etag_val)
+          memcpy(etag_val, et->val, et->len);
+      } else if ((et != NULL) != etag_have || (et && (et->len != etag_len || memcmp(et->val, etag_val, et->len)))) {
+        gfail("block2-etag-changes", ti, fi, szx, sw, "block %u carries %s ETag, block 0 carried %s", num, et ? "another" : "no", etag_have ? "one" : "none");
+        goto out;
+      }
     }
     unsigned v = w_uint(b2), rnum = v >> 4, rm = (v >> 3) & 1, rszx = v & 7, bs = 16u << rszx;
     if (cur_szx >= 0 && (int)rszx > cur_szx) {
@@ -256,7 +272,7 @@ main(int argc, char **argv) {
   vx_ev_rule("stage c20get: block-wise GET of /.well-known/core from a real libcoap server (COAP_BLOCK_USE_LIBCOAP) by a raw client: tables (all "
              "subsets of size <= 2 of the 12 shapes, thorough: + every 7th subset of size 3; + the table of all 12) x all catalogue filters x "
              "requested Block2 size {none, 16..1024} x {same size throughout, smallest size after the first block} x {no unknown-resource handler, an unknown-resource handler serving GET and PUT that has not asked for /.well-known/core}; re-assembled body compared "
-             "byte for byte with the in-process listing of the same table and query; Block2 number / M / size / payload length / Content-Format "
+             "byte for byte with the in-process listing of the same table and query; Block2 number / M / size / payload length / Content-Format / same ETag "
              "of every block; a block past the end must not be served; tables holding the application's own .well-known/core resource are left out; a size switch "
              "that the server refuses with 4.xx counts as an explicit refusal; distinct = distinct re-assembled bodies longer than one smallest block");
   vx_ev_assumption("without COAP_BLOCK_USE_LIBCOAP the handler does no block-wise transfer at all (it truncates to the PDU size): not part of this clause");
